@@ -14,10 +14,10 @@ import (
 // go/types.Type and whose arms name concrete kinds must look through aliases.
 
 type aliasSite struct {
-	F       *core.Func
-	Node    ast.Node // TypeSwitchStmt or TypeAssertExpr
-	Operand ast.Expr
-	Kinds   []string
+	F           *core.Func
+	Node        ast.Node // TypeSwitchStmt or TypeAssertExpr
+	Operand     ast.Expr
+	Kinds       []string
 	HasAliasArm bool
 	Protected   bool
 	How         string
@@ -134,7 +134,7 @@ func aliasSites(p *core.Program) []aliasSite {
 // a10Exceptions: reviewed sites, one symbol each.
 // keyed by package + the asserted operand's shape (method chain), not by function or variable names
 var a10Exceptions = map[string]string{
-	"pkg/namer :: Type().(*types.Named)":                            "operand is the Type() of a *types.TypeName; only a defined generic type has its own type-parameter list to print, an alias TypeName is rendered through the *types.Alias arm of snippet.ID",
+	"pkg/namer :: Type().(*types.Named)":                                  "operand is the Type() of a *types.TypeName; only a defined generic type has its own type-parameter list to print, an alias TypeName is rendered through the *types.Alias arm of snippet.ID",
 	"devpkg/deepcopygen/helper :: Results().At().Type().(*types.Pointer)": "result type of a DeepCopy method spelled through an alias of a pointer type: outside the property's type domain (methods are generated or written with *T)",
 	"devpkg/deepcopygen/helper :: Params().At().Type().(*types.Pointer)":  "parameter type of a DeepCopyInto method spelled through an alias of a pointer type: outside the property's type domain",
 }
@@ -235,4 +235,3 @@ func a10Report(p *core.Program, r *core.Report, rule string, rels ...string) int
 	}
 	return n
 }
-
